@@ -307,6 +307,14 @@ def step (d : DS) (op implObs : String) : DS × String × List String :=
       let m0 := cands.headD d.m
       (modelOfImpl ws due act cap qRunning,
         if known then [s!"C17 webseed-accounting-mismatch op={name} impl={implAcct} model={acctOfModel m0}"] else [])
+  -- C10: a source that was paused after a download error is usable again once its retry has fired
+  let retryViol := if name = "wsretry" then
+      match ws[kvNat toks "i"]? with
+      | some x => if x.disabled && !x.dl && !(due.contains (kvNat toks "i")) then
+          [s!"C10 webseed-stays-disabled-after-its-retry source={kvNat toks "i"}"] else []
+      | none => []
+    else []
+  let mism := mism ++ retryViol
   let tainted := d.tainted || !mism.isEmpty || (hit.isNone && !known)
   -- does the (untainted) model itself predict the anomaly?  Then it is finding C17-F3.
   let mnd := countDl m'.srcs
